@@ -111,7 +111,7 @@ def find_ptm_atoms(molecule):
     return ptms
 
 
-def identify_ptms(residue, residue_ptms, known_ptms):
+def identify_ptms(residue, residue_ptms, known_ptms, annotated=None):
     """
     Identifies all PTMs in ``known_PTMs`` necessary to describe all PTM atoms in
     ``residue_ptms``. Will take PTMs such that all PTM atoms in ``residue``
@@ -157,7 +157,12 @@ def identify_ptms(residue, residue_ptms, known_ptms):
     for res_ptm in residue_ptms:
         ptm_atoms, anchors = res_ptm
         # For every node in this residue, get all modifications already known.
-        residue_mods = [residue.nodes[idx].get('modifications', []) for idx in ptm_atoms]
+        if annotated is None:
+            residue_mods = [residue.nodes[idx].get('modifications', []) for idx in ptm_atoms]
+        else:
+            # Only the modifications that were annotated before any PTM was
+            # identified (i.e. requested ones) are already known.
+            residue_mods = [annotated.get(idx, []) for idx in ptm_atoms]
         # Deduplicate the modifications so we only check e.g. C-ter once for
         # this residue
         used_mods = []
@@ -282,6 +287,12 @@ def fix_ptm(molecule):
         resid_to_idxs[residx].append(n_idx)
     resid_to_idxs = dict(resid_to_idxs)
 
+    # The modifications annotated on the input. Identified PTMs get added to
+    # the 'modifications' of whole residues below, which must not make other
+    # unexplained atoms of those residues look as if they were already known.
+    annotated = {idx: list(mods)
+                 for idx, mods in molecule.nodes(data='modifications') if mods}
+
     # Keep track of all nodes that get removed due to unknown PTMs
     removed = set()
 
@@ -322,7 +333,7 @@ def fix_ptm(molecule):
                                               if opt[0].nodes[n].get('PTM_atom', False)]),
                          reverse=True)
         try:
-            identified = identify_ptms(residue, res_ptms, options)
+            identified = identify_ptms(residue, res_ptms, options, annotated)
         except KeyError:
             LOGGER.warning('Could not identify the modifications for'
                            ' residues {}, involving atoms {}',
